@@ -30,6 +30,7 @@ Definition asm0 : asm := mkAsm [] [] [].
 Section Import.
   Variable hashf : N -> N.
   Variable thr : N.                       (* the literal 100_000 *)
+  Variable final_flush : bool.            (* true = the tree contains fixes/C08-flush-queued-at-end.patch (FlushAll after the loop) *)
 
   Definition asm_step (a : asm) (p : packet) : asm :=
     if p_tcp p then let '(f, t) := tcp_step (a_fac a, a_tcp a) p in mkAsm f (a_udp a) t
@@ -196,7 +197,8 @@ Section Import.
         let fed := feed (needed_pcaps b best newfiles' st) newPackets in
         let fin := fold_left (loop_step bts) fed (mkLoop asm0 0 None kept) in
         let nx := next_stream_id stack in
-        let '(res, nx') := dump (a_fac (l_asm fin)) newfiles' stack nx (mkResult [] 0 [] [] []) in
+        let fac := if final_flush then tcp_flush_all (a_fac (l_asm fin)) (a_tcp (l_asm fin)) else a_fac (l_asm fin) in
+        let '(res, nx') := dump fac newfiles' stack nx (mkResult [] 0 [] [] []) in
         (mkBuilder (b_known b ++ newinfos) (l_snaps fin),
          Some (mkResult (r_index res) (nx' - nx) (r_upd res) (r_reset res) (r_added res)))
     end.
